@@ -660,4 +660,5 @@ package io
 //@   havoc
 //@   atcall registerNamedStructEncoder [write_locked_when_it_becomes_visible] ghost.held[addr(encoder.RWMutex)] == 1
 //@   loop 1 invariant 0 <= i && len(metadata) >= 2 && n == len(fields) && ghost.held[addr(encoder.RWMutex)] == 1
-//@   ensures [class_metadata_assigned_and_lock_released] result != nil && len(result.metadata) >= 3 && ghost.held[addr(result.RWMutex)] == 0
+//@   atcall registerValueEncoder [class_metadata_complete_and_still_write_locked] len(encoder.metadata) >= 3 && ghost.held[addr(encoder.RWMutex)] == 1
+//@   ensures [lock_released] result != nil && ghost.held[addr(result.RWMutex)] == 0
